@@ -607,8 +607,11 @@ def finish(ctx, checker_cmd, design_ref="", search=None):
         "wall_s": round(time.time() - ctx.t0, 2),
         "violations": nviol,
     }
-    os.makedirs(os.path.join(VERIF, "evidence"), exist_ok=True)
-    json.dump(ev, open(os.path.join(VERIF, "evidence", ctx.prop + ".json"), "w"), indent=1, default=str)
+    # the committed evidence describes runs against /repo itself; a run against a scratch copy (VERIF_REPO, used to
+    # confirm seeded changes) leaves it alone
+    evdir = os.path.join(VERIF, "evidence") if os.path.realpath(REPO) == "/repo" else "/var/tmp/verif-scratch-evidence"
+    os.makedirs(evdir, exist_ok=True)
+    json.dump(ev, open(os.path.join(evdir, ctx.prop + ".json"), "w"), indent=1, default=str)
     for l in lines:
         print(l)
     print("%s tier=%s seed=%s obligations=%d discharged=%d evaluations=%d nontrivial=%d model-checked=%d disagreements=%d monitor-hits=%d wall=%.1fs => %s" % (
